@@ -129,6 +129,16 @@ func (s *ImageStore) Put(db string, pos ltx.Pos, im *Image) {
 	s.m[posKey(db, uint64(pos.TXID), uint64(pos.PostApplyChecksum))] = im.Clone()
 }
 
+// FindEqual reports whether some registered image of db equals im.
+func (s *ImageStore) FindEqual(db string, im *Image) (string, bool) {
+	for k, v := range s.m {
+		if strings.HasPrefix(k, db+"/") && v.N() == im.N() && DiffImages(im, v) == "" {
+			return k, true
+		}
+	}
+	return "", false
+}
+
 func (s *ImageStore) Get(db string, pos ltx.Pos) (*Image, bool) {
 	im, ok := s.m[posKey(db, uint64(pos.TXID), uint64(pos.PostApplyChecksum))]
 	return im, ok
